@@ -38,13 +38,16 @@ SAFE = {
     "as_boolean": {"B"},
     "as_string": {"SF", "SV"},
     "as_object": TOP,
+    # np.diff(x) >= 0 as a sortedness test: the difference wraps around on unsigned integers (and on signed ones at the
+    # extremes), is a logical xor on booleans, and overflows likewise on the int64-backed datetime/timedelta types
+    "diff": {"F", "R"},
 }
 
 
 def _pred_of(test, var):
     """(classes, True) when ``test`` is var.is_X()."""
-    if isinstance(test, ast.Call) and isinstance(test.func, ast.Attribute) and isinstance(test.func.value, ast.Name) \
-            and test.func.value.id == var and not test.args and test.func.attr in PRED:
+    if isinstance(test, ast.Call) and isinstance(test.func, ast.Attribute) and isinstance(test.func.value, (ast.Name, ast.Subscript)) \
+            and norm(test.func.value) == var and not test.args and test.func.attr in PRED:
         return frozenset(PRED[test.func.attr])
     return None
 
@@ -85,7 +88,7 @@ def refine(state, test, truth, var):
 def transfer(state, value, var):
     """Classes of ``value`` (an expression that may mention var) given var's state; None when var-independent/unknown."""
     v = value
-    if isinstance(v, ast.Name) and v.id == var:
+    if isinstance(v, (ast.Name, ast.Subscript)) and norm(v) == var:
         return state
     if isinstance(v, ast.IfExp):
         a = transfer(refine(state, v.test, True, var), v.body, var)
@@ -144,9 +147,11 @@ def _make_resolver(fn, var):
 def analyse(fn, var, init=ALL):
     """dict cfg-node id -> classes ``var`` may have BEFORE the node (None = unreachable / undefined)."""
     cfg = cfg_of(fn)
-    _RESOLVER[0] = _make_resolver(fn, var)
+    _RESOLVER[0] = _make_resolver(fn, var) if var.isidentifier() else None
+    import re as _re
+    root = _re.match(r"[A-Za-z_]\w*", var).group(0)
     IN = {n.id: None for n in cfg.nodes}
-    IN[cfg.entry.id] = frozenset()
+    IN[cfg.entry.id] = frozenset() if var.isidentifier() else frozenset(init)
     work = [cfg.entry]
     while work:
         n = work.pop()
@@ -161,6 +166,11 @@ def analyse(fn, var, init=ALL):
             out = frozenset(t) if t is not None else frozenset(init)
         elif n.kind == "stmt" and isinstance(a, (ast.AugAssign, ast.AnnAssign)) and isinstance(a.target, ast.Name) and a.target.id == var:
             out = frozenset(TOP)
+        elif n.kind == "stmt" and not var.isidentifier() and a is not None and (
+                any(isinstance(x, ast.Name) and isinstance(x.ctx, (ast.Store, ast.Del)) and x.id == root for x in ast.walk(a))
+                or (isinstance(a, ast.Assign) and any(isinstance(t, ast.Subscript) and norm(t.value) == root for t in a.targets))):
+            # the tracked expression (e.g. columns[0]) is rebuilt: nothing is known about it any more
+            out = frozenset(init)
         for s, label in n.succ:
             o = out
             if n.kind == "test" and label in ("T", "F"):
@@ -212,6 +222,10 @@ def operations(fn, var, init=ALL):
                 t = transfer(state, target, var)
                 if t is not None:
                     out.append((e, "neg", frozenset(t)))
+        if isinstance(e, ast.Call) and norm(e.func) in ("np.diff", "numpy.diff", "np.ediff1d", "numpy.ediff1d") and e.args:
+            t = transfer(state, e.args[0], var)
+            if t is not None:
+                out.append((e, "diff", frozenset(t)))
         if isinstance(e, ast.Call) and isinstance(e.func, ast.Attribute) and e.func.attr in SAFE and e.func.attr.startswith("as_"):
             t = transfer(state, e.func.value, var)
             if t is not None:
